@@ -193,6 +193,12 @@ def run(out, tier, seed, model_ok):
     cs = A.gen_cases(seed, n, PROFILE, sm=SM, tag="c01-")
     run_ = A.ApiRun(out, "C01", model_ok, project, observers=[oracle], name="text")
     run_.run(cs, nontrivial=lambda c, r: bool(NT & set(c["features"])))
+    # story-final deleted paragraph marks (O1 of DESIGN.md: outside the grammar - the buffered text of the last paragraph of a
+    # part is never flushed).  The property's own oracle does not apply there, but WHERE that text goes is still a function the
+    # model fixes (nowhere: it is neither moved into the next part nor into the next conversion); compared with the model only.
+    tails = A.gen_cases(seed + 4242, common.deepen(250 if tier == "quick" else 3000), dict(PROFILE, p_deleted_tail=0.25, p_note=0.35, p_comment=0.2), sm=SM, tag="c01-tail-")
+    run2 = A.ApiRun(out, "C01", model_ok, project, observers=[], name="text (documents with story-final deleted marks: model only)")
+    run2.run(tails, nontrivial=lambda c, r: bool(NT & set(c["features"])))
     out.rule = ("generated packages over the whole handler table (paragraphs, runs, nested tables, hyperlinks, complex fields, sdt, ins/del, deleted marks, "
                 "smart tags, text boxes, symbols, tabs, hyphens, notes, comments; hostile Unicode text), style maps without :separator incl. `!`, all option "
                 "combinations; observation = HTML with tags removed and entities decoded by an independent strict lexer + raw text; compared with (a) the same "
